@@ -50,8 +50,8 @@ CLAIMED = {
           "registry_sound decided over the regenerated registry and class tables; fromString_toString and toString_fromString_canonical for every "
           "registered scheme and every constraint list with delimiter-free version texts; version order of the printed constraints through "
           "sortCons_of_wf. 'alpine' was missing from the registry on the unchanged tree (F14, repaired). FUNCTION TIE: remove_spaces, VersionConstraint.split / from_string / "
-          "__str__ / to_dict and VersionRange.from_string (with its flags) are translated from the Python source on every run and proved equal to the model "
-          "functions (py_remove_spaces_eq, vc_split_eq, vc_from_string_eq, vc_str_eq, vc_to_dict_eq, vr_from_string_eq).",
+          "__str__ / to_dict and VersionRange.from_string (with its flags) / __str__ / to_dict are translated from the Python source on every run and proved equal to the model "
+          "functions (py_remove_spaces_eq, vc_split_eq, vc_from_string_eq, vc_str_eq, vc_to_dict_eq, vr_from_string_eq, vr_str_eq, vr_to_dict_eq).",
           "mkVer (the version class) is a parameter of the text theorems, instantiated by the Layer-A models in the driver. Correspondence: generated, "
           "decorated and mutated vers strings for all schemes; object round trip for every range class.",
           "§7 C05", "Lean 4 proof (string split/join lemmas, decide over regenerated tables) + correspondence"),
